@@ -182,6 +182,46 @@ func guardFacts(c *Ctx, pkgs []string, doNil, doDiv, doIdx bool) {
 		g.runFunc(c.P.FlowOf(fi))
 	}
 	R.Count("functions analysed for guard facts", nf)
+	if doIdx {
+		// the contracts the slice rule relies on are themselves obligations
+		for key, pi := range boundedResultFuncs {
+			fi := c.P.MustFunc(R, "R14c", key)
+			if fi == nil {
+				continue
+			}
+			var bb *Base
+			nret := 0
+			bb = NewBase(Hooks{Return: func(x *Exec, ret *ast.ReturnStmt, s St) []St {
+				if ret == nil || len(ret.Results) == 0 {
+					return []St{s}
+				}
+				nret++
+				params := x.Fn.Type.Params.List
+				var pname *ast.Ident
+				idx := 0
+				for _, f := range params {
+					for _, n := range f.Names {
+						if idx == pi {
+							pname = n
+						}
+						idx++
+					}
+				}
+				ok := false
+				if pname != nil {
+					pt, ok1 := bb.Term(x, pname, s)
+					rt, ok2 := bb.Term(x, ret.Results[0], s)
+					ok = ok1 && ok2 && (relIsEq(s, rt, "<=", "len("+pt+")", true) || rt == "len("+pt+")")
+				}
+				R.Check(ok, "R14c", fmt.Sprintf("%s%s:return#%d:bounded-result", c.Cfg, key, returnOrdinal(x.Fn, ret)), c.P.Pos(ret.Pos()),
+					"the result is at most the length of the buffer parameter (contract used at the call sites)", "the returned count is not bounded by len of the buffer parameter on this path", x.Trace()...)
+				return []St{s}
+			}})
+			bx := NewExec(c.P.FlowOf(fi), bb)
+			bx.Run(newSt())
+			R.Check(nret > 0, "R14c", c.Cfg+key+":returns", "", "returns of "+key+" were analysed", "none")
+		}
+	}
 }
 
 func (g *guardRules) runFunc(fl *FlowFn) {
@@ -220,7 +260,10 @@ func (g *guardRules) runFunc(fl *FlowFn) {
 	g.fnKey = fl.Name
 }
 
-type scanInfo struct{ nilable, induct map[types.Object]bool }
+type scanInfo struct {
+	nilable, induct map[types.Object]bool
+	rangeOf         map[types.Object]string // range index -> text of the ranged expression
+}
 
 // scan finds nilable locals and loop induction variables of the function
 // (the outermost enclosing declaration) fn belongs to; cached.
@@ -234,7 +277,7 @@ func (g *guardRules) scan(fn *FlowFn) *scanInfo {
 	if si := g.scans[fn]; si != nil {
 		return si
 	}
-	si := &scanInfo{nilable: map[types.Object]bool{}, induct: map[types.Object]bool{}}
+	si := &scanInfo{nilable: map[types.Object]bool{}, induct: map[types.Object]bool{}, rangeOf: map[types.Object]string{}}
 	g.scans[fn] = si
 	g.scanFunc(fn, si)
 	return si
@@ -277,6 +320,7 @@ func (g *guardRules) scanFunc(fn *FlowFn, si *scanInfo) {
 					// range index of a slice is always in bounds for that slice
 					if _, isMap := info.TypeOf(n.X).Underlying().(*types.Map); !isMap {
 						si.induct[o] = true
+						si.rangeOf[o] = exprStr(n.X)
 					}
 				}
 			}
@@ -376,6 +420,50 @@ func (g *guardRules) call(x *Exec, call *ast.CallExpr, lhs []ast.Expr, s St) ([]
 }
 
 func (g *guardRules) assign(x *Exec, as *ast.AssignStmt, s St) []St {
+	// n, err := r.Read(buf) / io.ReadFull(r, buf) / n := copy(buf, ..): n is bounded by len(buf)
+	if len(as.Rhs) == 1 && len(as.Lhs) >= 1 {
+		if call, ok := ast.Unparen(as.Rhs[0]).(*ast.CallExpr); ok {
+			var buf ast.Expr
+			switch fn := call.Fun.(type) {
+			case *ast.SelectorExpr:
+				if fn.Sel.Name == "Read" && len(call.Args) == 1 {
+					buf = call.Args[0]
+				}
+				if full := fullCalleeName(x.Fn.Info, call); (full == "io.ReadFull" || full == "io.ReadAtLeast") && len(call.Args) >= 2 {
+					buf = call.Args[1]
+				}
+			case *ast.Ident:
+				if fn.Name == "copy" && len(call.Args) == 2 {
+					buf = call.Args[0]
+				}
+			}
+			if k := calleeKey(x.Fn.Info, call); k != "" {
+				if pi, ok := boundedResultFuncs[k]; ok && pi < len(call.Args) {
+					buf = call.Args[pi]
+				}
+			}
+			if id, ok := call.Fun.(*ast.Ident); ok && id.Name == "make" && len(call.Args) >= 2 && len(as.Lhs) == 1 {
+				if lt, ok := g.base.LTerm(x, as.Lhs[0], s); ok {
+					n := ""
+					if k, ok := constInt(x.Fn.Info, call.Args[1]); ok {
+						n = fmt.Sprint(k)
+					} else if nt, ok := g.base.Term(x, call.Args[1], s); ok {
+						n = s.Get("c:" + nt)
+					}
+					if n != "" {
+						s = s.Set("p:#"+n+"==len("+lt+")", "T")
+					}
+				}
+			}
+			if buf != nil {
+				if bt, ok := g.base.Term(x, buf, s); ok {
+					if nt, ok := g.base.LTerm(x, as.Lhs[0], s); ok {
+						s = s.Set("iobound:"+nt, bt)
+					}
+				}
+			}
+		}
+	}
 	// range over a repeated message field of a decoded message
 	if len(as.Rhs) == 1 && len(as.Lhs) == 2 {
 		if u, ok := as.Rhs[0].(*ast.UnaryExpr); ok && u.Op == token.RANGE {
@@ -507,6 +595,71 @@ func (g *guardRules) observe(x *Exec, e ast.Expr, s St, doNil, doDiv, doIdx bool
 		}
 		R.Check(safe, "R14c", key, g.c.P.Pos(e.Pos()), "index "+exprStr(e)+" is dominated by a bound on the length",
 			exprStr(e)+": no dominating length/bound check on this path (index out of range panics the handler)", x.Trace()...)
+	case *ast.SliceExpr:
+		if !doIdx || !idxScope(root.Name) {
+			return
+		}
+		xt := info.TypeOf(e.X)
+		if xt == nil {
+			return
+		}
+		switch u := xt.Underlying().(type) {
+		case *types.Slice:
+		case *types.Basic:
+			if u.Info()&types.IsString == 0 {
+				return
+			}
+		default:
+			return // arrays: bounds are checked by the compiler for constants, and x[:] needs none
+		}
+		xtm, ok1 := g.base.Term(x, e.X, s)
+		lt := "len(" + xtm + ")"
+		for _, bnd := range []ast.Expr{e.Low, e.High} {
+			if bnd == nil {
+				continue
+			}
+			key := fmt.Sprintf("%s%s:slice:%s:%s", g.c.Cfg, root.Name, exprStr(e), exprStr(bnd))
+			safe := false
+			if k, ok := constInt(info, bnd); ok {
+				if k == 0 {
+					continue
+				}
+				if ok1 {
+					lo, has := lowerBound(s, lt)
+					safe = has && lo >= k
+					if !safe {
+						// strings.HasPrefix(x, "const") == true bounds len(x) from below
+						for a, v := range s.m {
+							if v == "T" && strings.HasPrefix(a, "p:strings.HasPrefix("+xtm+",#\"") {
+								lit := strings.TrimSuffix(strings.TrimPrefix(a, "p:strings.HasPrefix("+xtm+",#"), ")")
+								if u, err := strconv.Unquote(lit); err == nil && int64(len(u)) >= k {
+									safe = true
+								}
+							}
+						}
+					}
+				}
+			} else if o := rangeIndexOf(info, bnd); o != nil && g.scan(x.Fn).rangeOf[o] == exprStr(e.X) {
+				safe = true // i or i+1 with i the range index over this very slice: i < len, so i+1 <= len
+			} else if o := identObj(info, bnd); o != nil && boundedAccumulator(root, o, e) {
+				safe = true // acc starts at 0 and only grows by the byte counts an io.Reader returned for x[acc:]
+			} else if it, ok := g.base.Term(x, bnd, s); ok && ok1 && s.Get("c:"+it) != "" {
+				if cv, err := strconv.ParseInt(s.Get("c:"+it), 10, 64); err == nil {
+					lo, has := lowerBound(s, lt)
+					safe = cv == 0 || (has && lo >= cv)
+				}
+			} else if it, ok := g.base.Term(x, bnd, s); ok && ok1 {
+				safe = relIsEq(s, it, "<=", lt, true) || relIsEq(s, it, "<", lt, true) || relIsEq(s, lt, "<", it, false)
+				if !safe && s.Get("iobound:"+it) == xtm {
+					safe = true // n of n, err := r.Read(x) / io.ReadFull(r, x) / copy(x, ..): 0 <= n <= len(x) by contract
+				}
+				if !safe && it == lt {
+					safe = true
+				}
+			}
+			R.Check(safe, "R14c", key, g.c.P.Pos(e.Pos()), "slice bound "+exprStr(bnd)+" of "+exprStr(e)+" is dominated by a bound on the length (or is the byte count an io.Reader returned for that very slice)",
+				exprStr(e)+": nothing on this path bounds "+exprStr(bnd)+" by the length of "+exprStr(e.X)+" (slice bounds out of range panics the handler)", x.Trace()...)
+		}
 	}
 }
 
@@ -707,4 +860,131 @@ func factsAbout(s St, t string) string {
 	}
 	sort.Strings(out)
 	return strings.Join(out, " ")
+}
+
+
+// boundedResultFuncs: module functions whose first result is bounded by the
+// length of the given parameter; the bound is itself an obligation checked at
+// every return of the function (R14c).
+var boundedResultFuncs = map[string]int{
+	"grpcproxy.(*StreamReadCloser).readFromBuf": 0,
+}
+
+// rangeIndexOf returns the range index object i when e is `i` or `i + 1`.
+func rangeIndexOf(info *types.Info, e ast.Expr) types.Object {
+	e = ast.Unparen(e)
+	if be, ok := e.(*ast.BinaryExpr); ok && be.Op == token.ADD {
+		if k, ok := constInt(info, be.Y); ok && k == 1 {
+			e = ast.Unparen(be.X)
+		} else {
+			return nil
+		}
+	}
+	return identObj(info, e)
+}
+
+// boundedAccumulator reports whether acc, used as the low bound of sl = x[acc:],
+// is initialised to 0 and otherwise only modified by `acc += T(n)` where n is
+// the count returned by a Read into that same x[acc:].  By the io.Reader
+// contract n <= len(x)-acc, so acc <= len(x) is an inductive invariant.
+func boundedAccumulator(root *FlowFn, acc types.Object, sl *ast.SliceExpr) bool {
+	info := root.Info
+	if sl.High != nil || identObj(info, sl.Low) != acc {
+		return false
+	}
+	xs := exprStr(sl.X)
+	ok, grows := true, 0
+	counts := map[types.Object]bool{} // n of n, err := r.Read(x[acc:])
+	ast.Inspect(root.Body, func(n ast.Node) bool {
+		as, isAs := n.(*ast.AssignStmt)
+		if !isAs {
+			return true
+		}
+		if len(as.Rhs) == 1 {
+			if call, k := ast.Unparen(as.Rhs[0]).(*ast.CallExpr); k && len(call.Args) == 1 {
+				if sel, k := call.Fun.(*ast.SelectorExpr); k && sel.Sel.Name == "Read" {
+					if a, k := ast.Unparen(call.Args[0]).(*ast.SliceExpr); k && exprStr(a.X) == xs && a.High == nil && identObj(info, a.Low) == acc {
+						if o := identObj(info, as.Lhs[0]); o != nil {
+							counts[o] = true
+						}
+					}
+				}
+			}
+		}
+		for i, l := range as.Lhs {
+			if identObj(info, l) != acc {
+				continue
+			}
+			switch as.Tok {
+			case token.DEFINE, token.ASSIGN:
+				if k, isC := constInt(info, as.Rhs[i]); !isC || k != 0 {
+					ok = false
+				}
+			case token.ADD_ASSIGN:
+				r := ast.Unparen(as.Rhs[i])
+				if conv, k := r.(*ast.CallExpr); k && len(conv.Args) == 1 {
+					if tv, k := info.Types[conv.Fun]; k && tv.IsType() {
+						r = ast.Unparen(conv.Args[0])
+					}
+				}
+				if o := identObj(info, r); o == nil || !counts[o] {
+					ok = false
+				}
+				grows++
+			default:
+				ok = false
+			}
+		}
+		return true
+	})
+	incdec := false
+	ast.Inspect(root.Body, func(n ast.Node) bool {
+		if id, k := n.(*ast.IncDecStmt); k && identObj(info, id.X) == acc {
+			incdec = true
+		}
+		if u, k := n.(*ast.UnaryExpr); k && u.Op == token.AND && identObj(info, u.X) == acc {
+			incdec = true
+		}
+		return true
+	})
+	return ok && !incdec && grows > 0
+}
+
+// relIsEq is relIs that also tries, for either side, a term known to be equal.
+func relIsEq(s St, l, op, r string, want bool) bool {
+	if relIs(s, l, op, r, want) {
+		return true
+	}
+	eqs := func(t string) []string {
+		var out []string
+		for k, v := range s.m {
+			if v != "T" || !strings.HasPrefix(k, "p:") {
+				continue
+			}
+			body := k[2:]
+			i := strings.Index(body, "==")
+			if i < 0 {
+				continue
+			}
+			a, b := body[:i], body[i+2:]
+			if a == t {
+				out = append(out, b)
+			} else if b == t {
+				out = append(out, a)
+			}
+		}
+		sort.Strings(out)
+		return out
+	}
+	for _, l2 := range eqs(l) {
+		if relIs(s, l2, op, r, want) {
+			return true
+		}
+	}
+	for _, r2 := range eqs(r) {
+		if relIs(s, l, op, r2, want) {
+			return true
+		}
+	}
+	return false
 }
